@@ -9,7 +9,8 @@
 //	         with (i) the same statements inside a function body, (ii) inside a source-module body
 //	         (plus an importer that declares the same names), (iii) sub-expressions wrapped in
 //	         immediately invoked function literals, (iv) injective renamings (values, errors AND
-//	         bytecode), and compositions of these
+//	         bytecode), and compositions of these. Failing runs are compared too: first line of the
+//	         error, calls seen by the host callback, globals still readable after the failed run (errgen.go)
 package main
 
 import (
@@ -19,6 +20,7 @@ import (
 	"fmt"
 	"os"
 	"regexp"
+	"sort"
 	"strings"
 	"time"
 
@@ -49,13 +51,36 @@ type outcome struct {
 	Class string   // ok | perr | cerr | rerr | panic | timeout | shape
 	Msg   string   // first line of the error, positions never included
 	Vals  []string // canonical values, one per collected name
+	// Fail: after a FAILED run, the globals the host can still read with Compiled.Get (canonical value per
+	// original name). Only the names that are globals in this placement are present: all top-level names for
+	// the original, its IIFE and renamed variants, the names of the statements left at top level for the
+	// function placements, none for module bodies. Compared on the names both sides have.
+	Fail map[string]string
+	// Log: the arguments of every call of the host callback `rec` (error-path programs, errgen.go), in
+	// order, rendered at the time of the call. The callback is reachable from every placement.
+	Log []string
 }
 
 func (o outcome) String() string {
+	s := o.Class + " " + o.Msg
 	if o.Class == "ok" {
-		return "ok [" + strings.Join(o.Vals, " ") + "]"
+		s = "ok [" + strings.Join(o.Vals, " ") + "]"
 	}
-	return o.Class + " " + o.Msg
+	if o.Log != nil {
+		s += " | host callback log: " + strings.Join(o.Log, "; ")
+	}
+	if o.Class != "ok" && len(o.Fail) > 0 {
+		keys := make([]string, 0, len(o.Fail))
+		for k := range o.Fail {
+			keys = append(keys, k)
+		}
+		sort.Strings(keys)
+		s += " | globals after the failed run:"
+		for _, k := range keys {
+			s += " " + k + "=" + o.Fail[k]
+		}
+	}
+	return s
 }
 
 func errOutcome(err error) outcome {
@@ -77,16 +102,46 @@ func errOutcome(err error) outcome {
 	return outcome{Class: "panic", Msg: first}
 }
 
+// runOpts: what a run needs besides the source, and what is read from it when it fails.
+type runOpts struct {
+	modules map[string]string
+	// host: the builtin module "host" is importable; its function rec(args…) appends its arguments to the log
+	host bool
+	// failNames[i] is read with Compiled.Get after a failed run and stored under failKeys[i]
+	failNames, failKeys []string
+}
+
+const maxLog = 400
+
 // runScript compiles and runs main (with the source modules given) through the Script API and
 // hands the compiled program to read.
 func runScript(main string, modules map[string]string, read func(c *tengo.Compiled) outcome) outcome {
+	return runScriptX(main, runOpts{modules: modules}, read)
+}
+
+func runScriptX(main string, ro runOpts, read func(c *tengo.Compiled) outcome) outcome {
 	var out outcome
 	g := lib.Guard(10*time.Second, func() {
+		var log []string
 		s := tengo.NewScript([]byte(main))
-		if len(modules) > 0 {
+		if len(ro.modules) > 0 || ro.host {
 			mm := tengo.NewModuleMap()
-			for n, src := range modules {
+			for n, src := range ro.modules {
 				mm.AddSourceModule(n, []byte(src))
+			}
+			if ro.host {
+				log = []string{}
+				mm.AddBuiltinModule("host", map[string]tengo.Object{"rec": &tengo.UserFunction{Name: "rec",
+					Value: func(args ...tengo.Object) (tengo.Object, error) {
+						if len(log) < maxLog {
+							parts := make([]string, len(args))
+							for i, a := range args {
+								parts[i] = readable(a, 0)
+							}
+							log = append(log, "rec("+strings.Join(parts, ", ")+")")
+						}
+						return tengo.UndefinedValue, nil
+					}}})
 			}
 			s.SetImports(mm)
 		}
@@ -99,9 +154,23 @@ func runScript(main string, modules map[string]string, read func(c *tengo.Compil
 		defer cancel()
 		if err := c.RunContext(ctx); err != nil {
 			out = errOutcome(err)
+			if out.Class == "rerr" || out.Class == "panic" {
+				out.Log = log
+				if len(ro.failNames) > 0 {
+					out.Fail = map[string]string{}
+					for i, n := range ro.failNames {
+						if ro.host {
+							out.Fail[ro.failKeys[i]] = readable(c.Get(n).Object(), 0)
+						} else {
+							out.Fail[ro.failKeys[i]] = lib.Canon(c.Get(n).Object())
+						}
+					}
+				}
+			}
 			return
 		}
 		out = read(c)
+		out.Log = log
 	})
 	if g.Panicked {
 		return outcome{Class: "panic", Msg: g.PanicVal}
@@ -110,6 +179,50 @@ func runScript(main string, modules map[string]string, read func(c *tengo.Compil
 		return outcome{Class: "timeout"}
 	}
 	return out
+}
+
+// readable renders an argument of the host callback for the log: like lib.Canon (map keys sorted, nothing
+// address- or order-dependent) but with plain strings, so that a reported log can be read.
+func readable(o tengo.Object, depth int) string {
+	if depth > 12 {
+		return "(deep)"
+	}
+	list := func(xs []tengo.Object) string {
+		parts := make([]string, len(xs))
+		for i, x := range xs {
+			parts[i] = readable(x, depth+1)
+		}
+		return strings.Join(parts, ", ")
+	}
+	dict := func(m map[string]tengo.Object) string {
+		keys := make([]string, 0, len(m))
+		for k := range m {
+			keys = append(keys, k)
+		}
+		sort.Strings(keys)
+		parts := make([]string, len(keys))
+		for i, k := range keys {
+			parts[i] = k + ": " + readable(m[k], depth+1)
+		}
+		return strings.Join(parts, ", ")
+	}
+	switch v := o.(type) {
+	case *tengo.String:
+		return fmt.Sprintf("%q", v.Value)
+	case *tengo.Int:
+		return fmt.Sprint(v.Value)
+	case *tengo.Undefined:
+		return "undefined"
+	case *tengo.Array:
+		return "[" + list(v.Value) + "]"
+	case *tengo.ImmutableArray:
+		return "immutable([" + list(v.Value) + "])"
+	case *tengo.Map:
+		return "{" + dict(v.Value) + "}"
+	case *tengo.ImmutableMap:
+		return "immutable({" + dict(v.Value) + "})"
+	}
+	return lib.Canon(o)
 }
 
 // readGlobals collects the named globals.
@@ -169,9 +282,35 @@ func same(a, b outcome) bool {
 				return false
 			}
 		}
-		return true
+		return sameLog(a, b)
 	}
-	return a.Msg == b.Msg
+	return a.Msg == b.Msg && sameFailState(a, b)
+}
+
+func sameLog(a, b outcome) bool {
+	if (a.Log == nil) != (b.Log == nil) || len(a.Log) != len(b.Log) {
+		return false
+	}
+	for i := range a.Log {
+		if a.Log[i] != b.Log[i] {
+			return false
+		}
+	}
+	return true
+}
+
+// sameFailState: two failed runs stopped at the same point — the host callback saw the same calls and
+// every global both placements have holds the same value.
+func sameFailState(a, b outcome) bool {
+	if !sameLog(a, b) {
+		return false
+	}
+	for k, v := range a.Fail {
+		if w, ok := b.Fail[k]; ok && v != w {
+			return false
+		}
+	}
+	return true
 }
 
 func resourceLimit(o outcome) bool {
@@ -190,6 +329,18 @@ type variantInput struct {
 	Main           string            `json:"main,omitempty"`    // importer of the module variants
 	Sigma          map[string]string `json:"sigma,omitempty"`   // renaming
 	Sentinels      []string          `json:"sentinels,omitempty"`
+	// error-path programs (errgen.go): the builtin module "host" (callback rec) is importable; the first
+	// Prelude statements of the source stay at top level in the function placements (their names are globals
+	// everywhere and are read after a failed run)
+	Host         bool     `json:"host_callback,omitempty"`
+	Prelude      int      `json:"prelude_statements,omitempty"`
+	PreludeNames []string `json:"prelude_names,omitempty"`
+}
+
+// runOriginal runs the untransformed program: values of its top-level names, and the same names after a
+// failed run (they are all globals).
+func runOriginal(in variantInput) outcome {
+	return runScriptX(in.Source, runOpts{host: in.Host, failNames: in.Names, failKeys: in.Names}, readGlobals(in.Names))
 }
 
 var quoted = regexp.MustCompile(`'([^']*)'`)
@@ -210,24 +361,38 @@ func mapMsg(msg string, sigma map[string]string) string {
 // with the original's.
 func evalVariant(in variantInput) outcome {
 	n := len(in.Names)
+	ro := runOpts{host: in.Host}
 	switch in.Transformation {
-	case "func", "iife+func", "rename+func":
-		return runScript(in.Variant, nil, readArray("__out", n, nil))
+	case "func", "func-nested", "iife+func":
+		ro.failNames, ro.failKeys = in.PreludeNames, in.PreludeNames
+		return runScriptX(in.Variant, ro, readArray("__out", n, nil))
+	case "rename+func":
+		ro.failNames, ro.failKeys = renamed(in.PreludeNames, in.Sigma), in.PreludeNames
+		return runScriptX(in.Variant, ro, readArray("__out", n, nil))
 	case "module":
-		return runScript(in.Main, map[string]string{"m": in.Variant}, readArray("__out", n, nil))
+		ro.modules = map[string]string{"m": in.Variant}
+		return runScriptX(in.Main, ro, readArray("__out", n, nil))
 	case "module-isolation":
-		return runScript(in.Main, map[string]string{"m": in.Variant}, readArray("__out", n, in.Sentinels))
+		ro.modules = map[string]string{"m": in.Variant}
+		return runScriptX(in.Main, ro, readArray("__out", n, in.Sentinels))
 	case "rename":
-		names := make([]string, n)
-		for i, x := range in.Names {
-			names[i] = x
-			if nn, ok := in.Sigma[x]; ok {
-				names[i] = nn
-			}
-		}
-		return runScript(in.Variant, nil, readGlobals(names))
+		names := renamed(in.Names, in.Sigma)
+		ro.failNames, ro.failKeys = names, in.Names
+		return runScriptX(in.Variant, ro, readGlobals(names))
 	}
-	return runScript(in.Variant, nil, readGlobals(in.Names))
+	ro.failNames, ro.failKeys = in.Names, in.Names
+	return runScriptX(in.Variant, ro, readGlobals(in.Names))
+}
+
+func renamed(names []string, sigma map[string]string) []string {
+	out := make([]string, len(names))
+	for i, x := range names {
+		out[i] = x
+		if nn, ok := sigma[x]; ok {
+			out[i] = nn
+		}
+	}
+	return out
 }
 
 // check compares one variant with the original's outcome; a difference is a violation of C11.
@@ -252,25 +417,51 @@ func check(orig outcome, in variantInput) bool {
 		res.Dist("variant-skipped:frame-or-stack-limit")
 		return true
 	}
+	if resourceLimit(got) && resourceLimit(want) {
+		// both ran into the limit: the added frames move the point where it is reached, only the error is compared
+		got.Fail, got.Log, want.Fail, want.Log = nil, nil, nil, nil
+	}
+	if got.Class != "ok" && got.Class == want.Class {
+		res.Dist("failing-pair-compared:" + in.Transformation)
+	}
+	if want.Fail != nil {
+		// only the globals both placements have are compared (and shown)
+		common := map[string]string{}
+		for k, v := range want.Fail {
+			if _, ok := got.Fail[k]; ok {
+				common[k] = v
+			}
+		}
+		want.Fail = common
+	}
 	if same(got, want) {
 		return true
 	}
 	what := "value-differs"
 	if got.Class != want.Class {
 		what = want.Class + "-becomes-" + got.Class
-	} else if got.Class != "ok" {
+	} else if got.Class != "ok" && got.Msg != want.Msg {
 		what = "error-differs"
+	} else if got.Class != "ok" {
+		// same error, but the two runs did not stop at the same point
+		what = "state-at-failure-differs"
 	}
 	res.Violate(lib.Violation{Signature: in.Transformation + ":" + what, Stream: "meta", Input: in,
 		Observed: clip(got.String(), 1200), Expected: clip(want.String(), 1200),
-		Oracle: "metamorphic: the transformed program must compute the same values / fail with the same error as the original (real code on both sides)"})
+		Oracle: "metamorphic: the transformed program must compute the same values / fail with the same error as the original, and a failing run must stop at the same point (first line of the error without positions; calls the host callback has seen; globals readable after the failed run) — real code on both sides"})
 	return false
 }
 
 // ---- bytecode of renamed programs ----
 
-func bytecodeDump(src string) (string, error) {
-	c, err := lib.CompileSource([]byte(src), lib.CompileOpts{})
+func bytecodeDump(src string, host bool) (string, error) {
+	var mm *tengo.ModuleMap
+	if host {
+		mm = tengo.NewModuleMap()
+		mm.AddBuiltinModule("host", map[string]tengo.Object{"rec": &tengo.UserFunction{Name: "rec",
+			Value: func(args ...tengo.Object) (tengo.Object, error) { return tengo.UndefinedValue, nil }}})
+	}
+	c, err := lib.CompileSource([]byte(src), lib.CompileOpts{Modules: mm})
 	if err != nil {
 		return "", err
 	}
@@ -287,8 +478,8 @@ func bytecodeDump(src string) (string, error) {
 }
 
 func checkRenameBytecode(in variantInput) {
-	a, errA := bytecodeDump(in.Source)
-	b, errB := bytecodeDump(in.Variant)
+	a, errA := bytecodeDump(in.Source, in.Host)
+	b, errB := bytecodeDump(in.Variant, in.Host)
 	if errA != nil || errB != nil {
 		return // compile errors are compared through the run path
 	}
@@ -416,19 +607,41 @@ func splitTop(s string) []string {
 
 // ---- one program, all its variants ----
 
+// progOpts: error-path programs (errgen.go) import the host callback and keep their first `prelude`
+// statements at top level in the function placements.
+type progOpts struct {
+	host    bool
+	prelude int
+}
+
 func checkProgram(src string, feats map[string]int, r *lib.RNG, thorough bool) {
+	checkProgramX(src, feats, r, thorough, progOpts{})
+}
+
+func checkProgramX(src string, feats map[string]int, r *lib.RNG, thorough bool, po progOpts) {
 	p, err := parseProgram(src)
 	if err != nil {
 		res.Dist("skip:parse-error")
+		if po.host {
+			fatal(fmt.Errorf("error-path generator produced an unparsable program: %v\n%s", err, src))
+		}
 		return
 	}
-	if p.hasTopLevelOnly() {
+	if !po.host && p.hasTopLevelOnly() {
 		res.Dist("skip:top-level-only-construct")
 		res.Skipped++
 		return
 	}
 	names := p.topLevelNames()
-	orig := runScript(src, nil, readGlobals(names))
+	base := variantInput{Source: src, Names: names, Host: po.host, Prelude: po.prelude}
+	if po.prelude > 0 {
+		q, err := parseProgram(src[:p.off(p.file.Stmts[po.prelude].Pos())])
+		if err != nil {
+			fatal(err)
+		}
+		base.PreludeNames = q.topLevelNames()
+	}
+	orig := runOriginal(base)
 	switch orig.Class {
 	case "timeout", "panic", "perr":
 		if os.Getenv("C11_DEBUG") != "" {
@@ -442,7 +655,12 @@ func checkProgram(src string, feats map[string]int, r *lib.RNG, thorough bool) {
 	nontrivial := len(feats) >= 5 && strings.Contains(src, "func(")
 	res.Count("meta:programs", src, nontrivial)
 	res.Sample(map[string]interface{}{"source": clip(src, 600), "outcome": clip(orig.String(), 200)}, 2)
-	base := variantInput{Source: src, Names: names}
+	if po.host {
+		res.Dist("error-path:original:" + orig.Class)
+		if orig.Class == "rerr" {
+			res.Dist("error-path:error:" + orig.Msg)
+		}
+	}
 
 	// (iv) renamings
 	for k := 0; k < 2; k++ {
@@ -463,14 +681,7 @@ func checkProgram(src string, feats map[string]int, r *lib.RNG, thorough bool) {
 		if k == 0 && !p.scopeDependent() {
 			in2 := in
 			in2.Transformation = "rename+func"
-			rn := make([]string, len(names))
-			for i, x := range names {
-				rn[i] = x
-				if nn, ok := sigma[x]; ok {
-					rn[i] = nn
-				}
-			}
-			in2.Variant = q.inFunction(rn)
+			in2.Variant = q.inFunctionFrom(po.prelude, renamed(names, sigma))
 			check(orig, in2)
 		}
 	}
@@ -482,6 +693,9 @@ func checkProgram(src string, feats map[string]int, r *lib.RNG, thorough bool) {
 	single := 6
 	if thorough {
 		single = len(sites)
+		if po.host && single > 16 {
+			single = 16 // every statement of an error-path program carries several sites; the subsets below cover the rest
+		}
 	}
 	perm := make([]int, len(sites))
 	for i := range perm {
@@ -528,8 +742,12 @@ func checkProgram(src string, feats map[string]int, r *lib.RNG, thorough bool) {
 		res.Dist("placement:skipped-closure-may-outlive-loop-iteration")
 		return
 	}
-	fn := p.inFunction(names)
-	switch specSame(p, names, fn) {
+	fn := p.inFunctionFrom(po.prelude, names)
+	spec := "unknown"
+	if !po.host {
+		spec = specSame(p, names, fn)
+	}
+	switch spec {
 	case "differs":
 		// the reference semantics itself distinguishes the placements: the documented
 		// scope-dependent case slipped through the syntactic filter (or the model is off); not compared
@@ -547,9 +765,18 @@ func checkProgram(src string, feats map[string]int, r *lib.RNG, thorough bool) {
 	if lastWrapped != "" {
 		if q, err := parseProgram(lastWrapped); err == nil {
 			in := base
-			in.Transformation, in.Variant = "iife+func", q.inFunction(names)
+			in.Transformation, in.Variant = "iife+func", q.inFunctionFrom(po.prelude, names)
 			check(orig, in)
 		}
+	}
+	if po.host {
+		// the same statements two function literals deep
+		in = base
+		in.Transformation, in.Variant = "func-nested", p.inNestedFunctionFrom(po.prelude, names)
+		check(orig, in)
+	}
+	if po.prelude > 0 {
+		return // a module body cannot leave statements at the importer's top level
 	}
 	in = base
 	in.Transformation, in.Variant, in.Main = "module", p.asModule(names), "__out := import(\"m\")\n"
@@ -568,6 +795,9 @@ func checkProgram(src string, feats map[string]int, r *lib.RNG, thorough bool) {
 		in.Transformation, in.Variant, in.Sentinels = "module-isolation", p.asModule(names), sent
 		in.Main = sb.String() + "__out := import(\"m\")\n"
 		check(orig, in)
+	}
+	if po.host {
+		return
 	}
 	// a program that uses a name it does not declare fails the same way as a module, even when the
 	// importer happens to declare that name: drop one top-level declaration and let the importer make it
@@ -650,6 +880,7 @@ func main() {
 	res.Rule = "symops: random and compiler-shaped operation sequences on the real tengo.SymbolTable vs the Lean model, every result and the whole table chain compared after every operation (non-trivial = a FREE symbol occurs). " +
 		"meta: programs from lib.NewGen (no top-level return/export) and from the scope-stress generator (captures at depth 1-3, writes and selector writes through captured variables, shadowing, loop-body declarations, closure factories, local recursion); " +
 		"plus programs that copy() closures / containers of closures over outer variables and interleave calls of original and copy with direct reads and writes (the copy refers to the same variables wherever they live); each is compared on the real code with its function-body / module-body placement, IIFE-wrapped sub-expressions (single sites, random subsets, all), injective renamings (values, errors, bytecode) and compositions; " +
+		"plus error-path programs that fail at run time on purpose, several times in a row (selector / index assignment, += and ++ through a selector, calls of non-callables, ill-typed operators, wrong argument counts, on a base that is a global, a local, or captured one or two levels up), recording progress through a host callback and a global that stays at top level; a pair of failing runs must agree on the first line of the error, on the callback log and on every global both placements can still read after the failed run; " +
 		"placements are not compared when a closure may outlive the loop iteration declaring a captured variable (syntactic filter, plus the reference interpreter as a second opinion); non-trivial = at least 5 generator features and a function literal"
 	if f.Replay != "" {
 		replay(f.Replay)
@@ -733,6 +964,23 @@ func main() {
 			}
 		}
 	}
+	// error-path programs (errgen.go): run-time failures on purpose, compared exactly; after everything else
+	for _, src := range errCorpus {
+		checkProgramX(src, map[string]int{"a": 1, "b": 1, "c": 1, "d": 1, "e": 1}, rng.Fork(), true, progOpts{host: true, prelude: 1})
+	}
+	n = f.Scale(260, 800)
+	for i := 0; i < n; i++ {
+		r := rng.Fork()
+		g := newErrGen(r)
+		src, prelude := g.program()
+		g.Feat["error-path"] = 5
+		checkProgramX(src, g.Feat, r, f.Thorough(), progOpts{host: true, prelude: prelude})
+		if i%10 == 0 {
+			for k, v := range g.Feat {
+				res.Distribution["efeat:"+k] += v
+			}
+		}
+	}
 	res.Write(f.Out)
 }
 
@@ -763,7 +1011,9 @@ func replay(path string) {
 		if err != nil {
 			continue
 		}
-		orig := runScript(in.Source, nil, readGlobals(p.topLevelNames()))
+		in0 := in
+		in0.Names = p.topLevelNames()
+		orig := runOriginal(in0)
 		if v.Stream == "finding-probe" {
 			probeO26("")
 			continue
